@@ -1,15 +1,17 @@
 ENTRY = dict(
     runner="C20", pkg="./cmd/c20", corr=["Corr.C20Corr"], n=dict(quick=700, thorough=4200),
     rule="histories of the public session API (SetSessionCache, BuildHandshakeStateWithoutSession, SetSessionTicketExtension, "
-         "SetPskExtension, SetSessionState, BuildHandshakeState, Handshake): a fixed corpus of the documented flows and the "
-         "BuildHandshakeStateWithoutSession witness on 7 ClientHelloIDs, every history up to length 3 (quick: half of length 3; "
-         "thorough: up to length 4) and sampled histories up to length 5, each on a ClientHelloID with/without session_ticket and "
-         "pre_shared_key extensions (Chrome_100, Chrome_112_PSK_Shuf, Chrome_115_PQ_PSK, Chrome_133, Firefox_120, iOS_14, "
-         "Safari_16_0, Golang) with drawn configuration (cache in Config or set later, tickets disabled, OmitEmptyPsk, cache empty / "
-         "holding a TLS 1.2 / TLS 1.3 session, TLS 1.2-only or TLS 1.3 loopback server). Setter arguments: nil, a session from a "
-         "priming connection, a session forged from a known master secret (MakeClientSessionState + Config.EncryptTicket), an "
-         "uninitialized extension. Distinct by (ClientHelloID, history, configuration); non-trivial when the history has at least 3 "
-         "calls including a build or handshake.",
+         "SetPskExtension, SetSessionState, BuildHandshakeState, Handshake) plus documented edits of the built hello (SetClientRandom, "
+         "SetSNI same/longer name, session id): a fixed corpus of the documented flows (incl. inject-build-edit-handshake, "
+         "inspect-reuse-handshake and the BuildHandshakeStateWithoutSession witness) on 7 ClientHelloIDs, every history up to length 3 over "
+         "the 8 call kinds (quick: half of length 3; thorough: up to length 4), sampled histories up to length 5, and random documented "
+         "flows ([SetSessionCache] (inspect|edit)* [inject] (inspect|build|edit)* Handshake, up to 9 calls), each on a ClientHelloID "
+         "with/without session_ticket and pre_shared_key extensions (Chrome_100, Chrome_112_PSK_Shuf, Chrome_115_PQ_PSK, Chrome_133, "
+         "Firefox_120, iOS_14, Safari_16_0, Golang) with drawn configuration (cache in Config or set later, tickets disabled, OmitEmptyPsk, "
+         "cache empty / holding a TLS 1.2 / TLS 1.3 session, TLS 1.2-only or TLS 1.3 loopback server). Setter arguments: nil, a session from "
+         "a priming connection, a session forged from a known master secret (MakeClientSessionState + Config.EncryptTicket), an "
+         "uninitialized extension, or the extension object found in uconn.Extensions filled in place. Distinct by (ClientHelloID, history, "
+         "configuration); non-trivial when the history has at least 3 calls including a build or handshake.",
     trusted_base=["loopback Go TLS servers of the utls package (session tickets with a fixed ticket key)",
                   "the runner's ClientHello parser (session_ticket bodies, first pre_shared_key identity, key_share entries)",
                   "classification of error/panic messages by substring into the model's codes"],
@@ -24,7 +26,8 @@ ENTRY = dict(
                "apply-preset-once fix): every documented call order runs without an assertion panic (HelloGolang included), keeps the "
                "key-share private keys that belong to the shares in the hello (incl. BuildHandshakeStateWithoutSession then "
                "BuildHandshakeState), puts an injected initialized ticket / PSK identity into the marshaled hello and HandshakeState "
-               "unchanged, and every forbidden setter call returns 'session is disabled' or panics with a documented message. The model "
+               "unchanged, recomputes the PSK binders in every successful build (so no Handshake fails for a stale binder or a lost key), "
+               "and every forbidden setter call returns 'session is disabled' or panics with a documented message. The model "
                "state is finite control x provenance flags x data by construction; the invariant is the computed reachable control set of "
                "each of the 864 parrot-shaped abstract worlds, checked closed by one vm_compute and lifted by induction over the history. "
                "Partial: cryptography, binder patching, the rest of the ClientHello and the network are not modelled; resumption "
